@@ -184,6 +184,14 @@ def run_split(ctx, g):
             if all(not t["notes"] and t["dur"] == 0 for t in tr):
                 continue
             cases.append((len(cases), tr, mi, rng.random() < .5))
+    if ctx.thorough and not ctx.replay:
+        from harness import fixtures
+        sl = fixtures.slices("quantised")
+        for a, b in zip(sl, sl[1:]):
+            ta = {"notes": a["notes"], "extras": [m for m in a["extras"] if m["t"] == 0], "dur": a["dur"]}
+            tb = {"notes": b["notes"], "extras": [], "dur": b["dur"]}
+            for qnl in (False, True):
+                cases.append((len(cases), [ta, tb], 0, qnl))
     obs = pmap(split_bars, cases, chunk=200)
     for i, o in enumerate(obs):
         o["id"] = i
